@@ -48,6 +48,10 @@ fn main() {
         "c01" => vmon::c01::run(&p),
         "c02" => vmon::c02::run(&p),
         "c04" => vmon::c04::run(&p),
+        "c05" => vmon::lc::run_c05(&p),
+        "c06" => vmon::c06::run(&p),
+        "c07" => vmon::lc::run_c07(&p),
+        "c08" => vmon::lc::run_c08(&p),
         _ => {
             eprintln!("unknown property {}", prop);
             std::process::exit(2)
